@@ -378,8 +378,9 @@ def run_spec(spec, symbolic=True, seed=1234):
     eng = sf.Engine(backend, backend_options=bo)
     np.random.seed(seed)
     copts = {}
-    if spec.get("optimize"):
-        copts["optimize"] = True
+    via = spec.get("optimize_via", "engine") if spec.get("optimize") else None
+    if via == "engine":
+        copts["optimize"] = True       # compile_options of Engine.run (and of an explicit pre-compilation)
     args = dict(spec.get("bind", {})) if symbolic else {}
     try:
         if symbolic and spec.get("bind_early"):
@@ -387,8 +388,11 @@ def run_spec(spec, symbolic=True, seed=1234):
                 names = set(p.free_params)
                 p.bind_params({k: v for k, v in args.items() if k in names})
             args = {}
-        if spec.get("precompile"):
-            progs = [p.compile(compiler=spec["precompile"], **copts) for p in progs]
+        if via == "method":
+            progs = [p.optimize() for p in progs]                     # Program.optimize()
+        if spec.get("precompile") or via == "compile":
+            target = spec.get("precompile") or backend
+            progs = [p.compile(compiler=target, **(dict(copts, optimize=True) if via == "compile" else copts)) for p in progs]
         res = None
         if spec.get("as_list") and len(progs) > 1 and all(set(args) <= set(p.free_params) for p in progs):
             res = eng.run(progs, args=args, compile_options=dict(copts))
@@ -410,7 +414,7 @@ def run_spec(spec, symbolic=True, seed=1234):
     return out
 
 
-def same_result(a, b, tol=1e-7):
+def same_result(a, b, tol=1e-6):
     if a["error"] or b["error"]:
         return a["error"] == b["error"]
     return all(x.shape == y.shape and np.allclose(x, y, atol=tol, rtol=0) for x, y in zip(a["state"], b["state"]))
@@ -874,7 +878,7 @@ def correspondence(ctx):
 
 
 def search(ctx):
-    for fn in (globals().get("search_corpus"), globals().get("search_programs"), globals().get("search_cross"), globals().get("search_backends")):
+    for fn in (globals().get("search_corpus"), globals().get("search_programs"), globals().get("search_optimize_shapes"), globals().get("search_cross"), globals().get("search_backends")):
         if fn:
             fn(ctx)
 
@@ -1020,12 +1024,24 @@ def gen_prog_spec(rng, err=False, segs=None, cross=None):
                     p = [["free", unbound_name]]
             trees = nonzero_first([gen_param_tree(rng, k, p, free, store) for k in kinds])
             cmds.append([name, trees, modes, name in GATES_WITH_H and rng.random() < 0.25, None])
+            if nm_ == 1 and name in GATES_WITH_H and not err and rng.random() < 0.3:
+                # a neighbour of the same family on the same mode with the same other parameters: what the
+                # optimiser merges; one of the two carries a measured parameter when an outcome exists
+                mo = [m for m in meas_ok if m != modes[0]]
+                first = ["mul", rng.choice([0.5, -0.3]), ["meas", rng.choice(mo)]] if (mo and rng.random() < 0.7) else rng.choice([0.4, -0.25, ["free", names[0]]])
+                nb = [name, [first] + list(trees[1:]), list(modes), rng.random() < 0.25, None]
+                seg_of.append(seg)
+                if rng.random() < 0.5:
+                    cmds.append(nb)
+                else:
+                    cmds.insert(len(cmds) - 1, nb)
         seg_of.append(seg)
     nsegs = seg + 1
     out = [[c for c, s in zip(cmds, seg_of) if s == k] for k in range(nsegs)]
     spec = {"n": n, "segs": out, "bind": bind, "defaults": defaults}
-    if rng.random() < 0.3:
+    if rng.random() < 0.4:
         spec["optimize"] = True
+        spec["optimize_via"] = rng.choice(["engine", "compile", "method"])
     if rng.random() < 0.2:
         spec["precompile"] = "gaussian"
     if rng.random() < 0.2:
@@ -1792,6 +1808,26 @@ PASSIVE_OPS = ["Rgate", "BSgate", "MZgate", "sMZgate", "LossChannel"]
 ALL_KINDS = dict(SYM_OPS, **FOCK_OPS)
 
 
+FOCK_EXACT_MERGE = ("Kgate", "Vgate", "Rgate", "LossChannel")
+
+
+def fock_inexact_merge_possible(cmds):
+    """In a truncated Fock space D(a)D(b), S(a)S(b), ... differ from D(a+b), S(a+b) by truncation error, so a program
+    whose numeric version gets such a pair merged by the optimiser while the symbolic one does not (or the other
+    way round) cannot be compared at 1e-6.  True iff two single-mode commands of one such family are neighbours on
+    the wire of their mode (the optimiser's notion of adjacency); those specs are run without optimisation (the
+    same shapes are covered on the gaussian backend, where merging is exact)."""
+    wires = {}
+    for c in cmds:
+        touched = set(c[2]) | {a for t in c[1] if isinstance(t, list) for k, a in atoms(t) if k == "meas"}
+        for m in touched:
+            prev = wires.get(m)
+            if prev is not None and prev[0] == c[0] and len(c[2]) == 1 and prev[2] == c[2] and c[0] not in FOCK_EXACT_MERGE and c[0] in FOCK_OPS:
+                return True
+            wires[m] = c
+    return False
+
+
 def gen_fock_spec(rng, err=False):
     """Small programs for the fock backend (cutoff 5): symbolic parameters over free atoms and outcomes of
     post-selected homodyne / Fock measurements, non-Gaussian gates included."""
@@ -1826,12 +1862,20 @@ def gen_fock_spec(rng, err=False):
                 p = [["meas", rng.choice(unm)]] if unm else [["free", [x for x in NAMES if x not in free][0]]]
             cmds.append([name, nonzero_first([gen_param_tree(rng, k, p, free, store) for k in kinds]), rng.sample(range(n), nm_),
                          name not in ("LossChannel",) and rng.random() < 0.25, None])
+            if nm_ == 1 and name != "LossChannel" and not err and rng.random() < 0.3:
+                c = cmds[-1]
+                mo = [m for m in store if m != c[2][0]]
+                first = ["mul", rng.choice([0.5, -0.3]), ["meas", rng.choice(mo)]] if (mo and rng.random() < 0.7) else rng.choice([0.4, -0.25])
+                nb = [name, [first] + list(c[1][1:]), list(c[2]), rng.random() < 0.25, None]
+                cmds.insert(len(cmds) - rng.choice([0, 1]), nb)
     spec = {"n": n, "segs": [cmds], "bind": bind, "defaults": {}, "backend": "fock", "cutoff": 5}
+    inexact = fock_inexact_merge_possible(cmds)
     r = rng.random()
     if r < 0.3:
         spec["precompile"] = "fock"
-    if rng.random() < 0.3:
+    if rng.random() < 0.4 and not inexact:
         spec["optimize"] = True
+        spec["optimize_via"] = rng.choice(["engine", "compile", "method"])
     if rng.random() < 0.3:
         spec["bind_early"] = True
     return spec
@@ -1917,3 +1961,58 @@ def replay_compile(ctx, d):
     bad = compile_predicate(d)
     print("predicate:", bad)
     return bad is not None
+
+
+
+# ---------------------------------------------------------------------------------------
+# search S6: deterministic sweep of the shapes the optimiser merges, with feed-forward parameters
+#
+# On one mode, neighbouring single-mode gates of one family with equal other parameters, some carrying a measured
+# parameter and some not, in every order (plain-measured, measured-plain, plain-measured-plain,
+# measured-plain-measured), with the dagger flag on either, for every single-mode gate family, with optimisation
+# requested through Engine.run(compile_options), Program.compile(optimize=True) and Program.optimize().
+
+SHAPE_FAMILIES = [("Dgate", [0.3], "gaussian"), ("Xgate", [], "gaussian"), ("Zgate", [], "gaussian"), ("Sgate", [0.4], "gaussian"),
+                  ("Rgate", [], "gaussian"), ("Pgate", [], "gaussian"), ("Kgate", [], "fock"), ("Vgate", [], "fock")]
+SHAPES = ["pm", "mp", "pmp", "mpm"]
+SHAPE_DAGGERS = [(), (0,), (1,)]
+SHAPE_VIAS = ["engine", "compile", "method"]
+
+
+def shape_spec(family, rest, backend, shape, daggers, via, plain=0.4, coeff=0.5, sel=0.6, free_plain=False):
+    """Mode 0 is prepared, entangled with the target mode and measured (post-selected); the target mode 2 (1 on
+    fock) then gets the gate sequence; a final beam splitter makes every gate count."""
+    t = 2 if backend == "gaussian" else 1
+    pre = [["Sgate", [0.3, 0.2], [0], False, None], ["BSgate", [0.5, 0.3], [0, t], False, None],
+           ["MeasureHomodyne", [0.0], [0], False, sel]]
+    seq = []
+    for i, ch in enumerate(shape):
+        first = ["mul", coeff, ["meas", 0]] if ch == "m" else (["free", "a"] if free_plain else plain * (1 + 0.5 * i))
+        seq.append([family, [first] + list(rest), [t], i in daggers, None])
+    post = [["BSgate", [0.7, 0.1], [0, t], False, None], ["Rgate", [0.3], [t], False, None]]
+    spec = {"n": 3 if backend == "gaussian" else 2, "segs": [pre + seq + post], "bind": {"a": plain} if free_plain else {}, "defaults": {},
+            "optimize": True, "optimize_via": via}
+    if backend == "fock":
+        spec.update(backend="fock", cutoff=5)
+    return spec
+
+
+def search_optimize_shapes(ctx):
+    rng = ctx.rng
+    n = 0
+    for family, rest, backend in SHAPE_FAMILIES:
+        for shape in SHAPES:
+            for daggers in SHAPE_DAGGERS:
+                for via in SHAPE_VIAS:
+                    n += 1
+                    if backend == "fock" and ctx.quick and (n % 2):
+                        continue        # the fock half of the sweep alternates in the quick tier
+                    spec = shape_spec(family, rest, backend, shape, daggers, via,
+                                      plain=rng.choice([0.4, -0.35, 0.25]), coeff=rng.choice([0.5, -0.4]), sel=rng.choice([0.6, -0.45]),
+                                      free_plain=rng.random() < 0.3)
+                    bad = prog_predicate(spec)
+                    ctx.case({"kind": "shape", "family": family, "shape": shape, "daggers": list(daggers), "via": via, "spec": spec},
+                             nontrivial=True, bucket="shape-%s-%s" % (family, via))
+                    if bad:
+                        ctx.counterexample("optimize-shape:%s:%s" % (family, bad[0]), "%s sequence '%s' (p = plain, m = measured parameter; dagger on %r; optimize via %s): %s"
+                                           % (family, shape, list(daggers), via, bad[1]), {"check": "prog", "spec": spec})
